@@ -33,14 +33,15 @@ type History struct {
 
 // Signatures of the root causes this check knows how to tell apart.
 const (
-	sigF10      = "http1/request-overflow:leased-client-dropped"
-	sigF11      = "pingpong/local-reset:connection-repooled"
-	sigCloseH1  = "http1/pool-close:self-deadlock-with-idle-connection"
-	sigClosePP  = "pingpong/pool-close:self-deadlock-with-idle-connection"
-	sigMuxGA    = "mux/goaway-then-connection-close:stream-reset-self-deadlock"
-	partSeq     = "seq"
-	partConc    = "conc"
-	partMinimal = "minimal"
+	sigF10       = "http1/request-overflow:leased-client-dropped"
+	sigF11       = "pingpong/local-reset:connection-repooled"
+	sigCloseH1   = "http1/pool-close:self-deadlock-with-idle-connection"
+	sigClosePP   = "pingpong/pool-close:self-deadlock-with-idle-connection"
+	sigMuxGA     = "mux/goaway-then-connection-close:stream-reset-self-deadlock"
+	sigMuxZombie = "mux/goaway-connection-replaced:never-closed-after-drain"
+	partSeq      = "seq"
+	partConc     = "conc"
+	partMinimal  = "minimal"
 )
 
 // failure is an oracle verdict produced by one execution of a history.
@@ -81,6 +82,10 @@ type mconn struct {
 	leaked   bool // absorbed F10: the pool counts it, nobody can ever use it
 	either   bool // after Shutdown / GoAway: the pool may close it when its exchange ends (unspecified)
 	byPool   bool // closed by the pool: the upstream must see the close
+	goAway   bool // multiplex: the upstream sent GoAway on it
+	zombie   bool // absorbed: drained go-away connection the pool forgot (never closes it)
+
+	leaseAfterGoAway bool // multiplex: a new stream was requested while it was draining
 }
 
 const (
@@ -163,6 +168,15 @@ func (r *run) live() (n int) {
 func (r *run) leaked() (n int) {
 	for _, c := range r.conns {
 		if c.leaked && c.state != cClosed {
+			n++
+		}
+	}
+	return
+}
+
+func (r *run) inflight(c *mconn) (n int) {
+	for _, s := range r.active() {
+		if s.conn == c {
 			n++
 		}
 	}
@@ -307,7 +321,7 @@ func (r *run) upstreamView() (hard *failure, soft string) {
 	}
 	for _, uc := range ucs {
 		if uc.Garbage != "" {
-			return r.failf(false, "garbage-on-connection", "upstream connection c%d received bytes that are not a request: %s", uc.ID, uc.Garbage), ""
+			return r.failf(true, "garbage-on-connection", "upstream connection c%d received bytes that are not a request: %s", uc.ID, uc.Garbage), ""
 		}
 		mc := r.conn(uc.ID)
 		if mc == nil {
@@ -316,7 +330,9 @@ func (r *run) upstreamView() (hard *failure, soft string) {
 			}
 			if r.pingpong() {
 				if uc.Open() || len(uc.Reqs) > 0 {
-					return r.failf(false, "unexplained-connection", "the pool opened upstream connection c%d (open=%v, %d requests) that no lease accounts for", uc.ID, uc.Open(), len(uc.Reqs)), ""
+					// the machine is shared: a stray connect from another process (a health checker dialling a port
+					// it knew under a previous owner) looks the same, so this needs the confirming re-run on a fresh port
+					return r.failf(true, "unexplained-connection", "upstream connection c%d (open=%v, %d requests) is accounted for by no lease; books %s; model: %s", uc.ID, uc.Open(), len(uc.Reqs), r.read(), r.describe()), ""
 				}
 			}
 			continue
@@ -329,6 +345,18 @@ func (r *run) upstreamView() (hard *failure, soft string) {
 		}
 	}
 	if !r.pingpong() {
+		for _, uc := range ucs {
+			mc := r.conn(uc.ID)
+			if mc == nil || !mc.goAway || mc.zombie || !uc.Open() || r.inflight(mc) > 0 {
+				continue
+			}
+			if mc.leaseAfterGoAway && r.known(sigMuxZombie) {
+				mc.zombie = true
+				r.class("absorbed-mux-goaway-zombie")
+				continue
+			}
+			soft = fmt.Sprintf("multiplex connection c%d received GoAway and has no request in flight any more, but the pool does not close it (zombie)", uc.ID)
+		}
 		open := 0
 		for _, uc := range ucs {
 			if uc.Open() {
@@ -409,6 +437,9 @@ func (r *run) settle(after string) *failure {
 	}
 	if strings.HasPrefix(msg, "books: ") {
 		return r.failf(true, "books-differ-from-truth:after-"+after, "after %s the pool's counters differ from the model at quiescence (got != want): %s; model: %s", after, msg[7:], r.describe())
+	}
+	if strings.Contains(msg, "(zombie)") {
+		return &failure{sig: sigMuxZombie, step: r.step, timing: true, msg: fmt.Sprintf("after %s: %s. CheckAndInit turned the go-away client's own state word from GoAway to Connecting when it started the replacement, so OnDestroyStream no longer sees GoAway when the last request ends; when that connection is finally closed by the peer, onConnectionEvent (state != GoAway) deletes the REPLACEMENT from the pool's slot. model: %s", after, msg, r.describe())}
 	}
 	return r.failf(true, "connection-not-closed:after-"+after, "after %s: %s; model: %s", after, msg, r.describe())
 }
@@ -500,6 +531,7 @@ func (r *run) leaseOnce(last bool) (soft bool, _ *failure) {
 	if r.mode != pool.ModeAccept || r.shut {
 		initWait = 30 * time.Millisecond // the multiplex pool cannot connect: do not wait for long
 	}
+	r.markLeaseAfterGoAway()
 	res := r.rig.Lease(tok, initWait)
 	r.out.leases++
 	if res.Hang != nil {
@@ -678,6 +710,17 @@ func (r *run) leaseOnce(last bool) (soft bool, _ *failure) {
 		r.out.nontrivial = true
 	}
 	return false, r.settle("lease")
+}
+
+func (r *run) markLeaseAfterGoAway() {
+	if r.pingpong() {
+		return
+	}
+	for _, c := range r.conns {
+		if c.goAway && c.state != cClosed && r.inflight(c) > 0 {
+			c.leaseAfterGoAway = true
+		}
+	}
 }
 
 // timeoutLost: the harness, as the proxy would on its per-try timeout, resets a request that was
@@ -955,8 +998,8 @@ func (r *run) goaway(c *mconn) *failure {
 		return r.failf(true, "harness-goaway-failed", "%v", err)
 	}
 	if !r.pingpong() {
-		// multiplex: the pool replaces the connection; when it closes the old one is up to it
-		c.either = true
+		// multiplex: the pool replaces the connection and closes the old one once it has drained
+		c.either, c.goAway = true, true
 		time.Sleep(300 * time.Microsecond)
 		return r.settle("goaway")
 	}
@@ -1041,7 +1084,8 @@ func (r *run) closePool() *failure {
 			continue
 		}
 		if !s.st.Wait(r.d, func(st pool.StreamState) bool { return st.Destroyed > 0 }) {
-			return r.failf(true, "lease-survives-pool-close", "pool.Close() closed the multiplex connections but request %q was not reset", s.token)
+			return r.failf(true, "lease-survives-pool-close", "pool.Close() closed the multiplex connections but request %q was not reset; goroutines inside the stream layer:\n%s\n%s", s.token,
+				trimStack(pool.FindStack("(*streamConn).Reset")), trimStack(pool.FindStack("(*activeClientMultiplex).OnDestroyStream")))
 		}
 		s.state, s.open = sFailed, false
 	}
@@ -1103,6 +1147,11 @@ func (r *run) closable() []*mconn {
 				r.class("skipped-known-mux-goaway-close")
 				continue
 			}
+			if (c.zombie || c.leaseAfterGoAway) && r.known(sigMuxZombie) {
+				// closing it now would make the pool evict the replacement connection (same root cause)
+				r.class("skipped-known-mux-goaway-close")
+				continue
+			}
 		}
 		out = append(out, c)
 	}
@@ -1140,6 +1189,9 @@ func (r *run) do(op Op) (f *failure, skipped bool) {
 				opt.GoAway = true
 				r.class("goaway")
 				s.conn.either = true
+				if !r.pingpong() {
+					s.conn.goAway = true
+				}
 			}
 		}
 		return r.reply(s, opt, name), false
